@@ -567,10 +567,21 @@ def run_once(env, case):
         if isinstance(e, (KeyboardInterrupt, SystemExit, MemoryError)):
             raise
         res = ("exc", e)
+    kind2 = None
+    if case.get("again"):
+        # the same question once more on the SAME object while the kernel keeps answering the same
+        try:
+            v2 = do_op(env, p, case["op"])
+            res2 = ("ok", norm_value(case["op"], canon(v2)))
+        except BaseException as e:   # noqa: BLE001
+            if isinstance(e, (KeyboardInterrupt, SystemExit, MemoryError)):
+                raise
+            res2 = ("exc", e)
+        kind2 = classify(env, res2, expected_name)[0]
     env.end()
     kind, detail = classify(env, res, expected_name)
     return {"res": res, "kind": kind, "detail": detail, "points": list(env.points), "fired": list(env.fired),
-            "calls": list(env.calls), "name": expected_name}
+            "calls": list(env.calls), "name": expected_name, "kind2": kind2}
 
 
 def judge(env, case, r, V0):
@@ -892,6 +903,22 @@ def enumerate_flavour(flavour, tier, seed):
                 stats["native_fns"].update(pts)
                 if len(samples) < 4 and pts:
                     samples.append({"flavour": flavour, "op": op, "pid": pidkind, "native_calls": pts, "value": V0})
+                # (1b) the process exits and is reaped just before native call k of the method and stays gone (what fails and what
+                #      merely comes back empty is then the kernel's affair): the whole answer of the live process, or NoSuchProcess
+                if flavour in BSDS and pidkind == "norm" and op not in SIGNAL_OPS and op != "wait" and "." not in op:
+                    for kk in range(len(pts) + 1):
+                        cd = dict(base, mode="dies@%d" % kk)
+                        rd = run_once(env, cd)
+                        stats["fault_runs"] += 1
+                        tuples.add((flavour, op, pidkind, "dies@%d" % kk, "", "", rd["kind"]))
+                        if rd["kind"] == "NSP" and not rd["detail"]:
+                            continue
+                        if rd["kind"] == "ok" and rd["res"][1] == V0:
+                            continue
+                        viol.append({"cause": "dies-during-the-call:%s:%s:%s" % (flavour, op, rd["kind"]),
+                                     "msg": "%s(): process gone before native call %d of %r: got %s %r; the live answer was %r"
+                                            % (op, kk, pts, rd["kind"], rd["detail"] or repr(rd["res"][1])[:200], V0),
+                                     "case": dict(cd, flavour=flavour)})
                 # (2) single faults
                 for i in range(len(pts)):
                     for f in faults:
@@ -910,6 +937,18 @@ def enumerate_flavour(flavour, tier, seed):
                                 rs = run_once(env, cs)
                                 stats["sticky_runs"] += 1
                                 note(cs, rs, V0)
+                            if op in SIGNAL_OPS and errclass(flavour, f, pts[i]) in ("nsp", "enoent?"):
+                                # signalling twice: what the first attempt concluded must not change the second answer while the
+                                # kernel's answers stay the same (a zombie stays a ZombieProcess, a gone process NoSuchProcess)
+                                ca = dict(base, sticky=[i, f], mode=mode, again=True)
+                                ra = run_once(env, ca)
+                                stats["sticky_runs"] += 1
+                                note(ca, ra, V0)
+                                if ra["kind2"] is not None and ra["kind2"] != ra["kind"]:
+                                    viol.append({"cause": "second-call-differs:%s:%s:%s->%s" % (flavour, op, ra["kind"], ra["kind2"]),
+                                                 "msg": "%s() twice on one object, %s keeps failing with %r, mode=%s: first %s, then %s"
+                                                        % (op, pts[i], f, mode, ra["kind"], ra["kind2"]),
+                                                 "case": dict(ca, flavour=flavour)})
                             if True:
                                 # second fault on any later call made after the first one fired (quick: on the very next call only
                                 # -- typically the "is it a zombie / does it still exist" probe of the error handler)
@@ -956,6 +995,11 @@ def replay_in_worker(flavour, case, seed):
         out.update(violated=case["pidkind"] == "norm", msg="zero-deviation run failed")
         return out
     V0 = r0["res"][1]
+    if str(case.get("mode", "")).startswith("dies@"):
+        r = run_once(env, case)
+        ok = (r["kind"] == "NSP" and not r["detail"]) or (r["kind"] == "ok" and r["res"][1] == V0)
+        out.update(violated=not ok, cause="dies-during-the-call", msg="got %s" % r["kind"], run=jsonable_res(r))
+        return out
     if not case.get("faults") and not case.get("sticky"):
         if case["op"] == "as_dict":
             bad = {}
@@ -971,8 +1015,14 @@ def replay_in_worker(flavour, case, seed):
         out.update(violated=V0 != want, expected=want)
         return out
     r = run_once(env, case)
+    if str(case.get("mode", "")).startswith("dies@"):
+        ok = (r["kind"] == "NSP" and not r["detail"]) or (r["kind"] == "ok" and r["res"][1] == V0)
+        out.update(violated=not ok, cause="dies-during-the-call", msg="got %s" % r["kind"], run=jsonable_res(r))
+        return out
     v, cause, msg = judge(env, case, r, V0)
-    out.update(violated=bool(v), cause=cause, msg=msg, run=jsonable_res(r))
+    if not v and case.get("again") and r.get("kind2") is not None and r["kind2"] != r["kind"]:
+        v, cause, msg = True, "second-call-differs", "first %s, then %s" % (r["kind"], r["kind2"])
+    out.update(violated=bool(v), cause=cause, msg=msg, run=jsonable_res(r), second=r.get("kind2"))
     return out
 
 
